@@ -1290,8 +1290,10 @@ class Request:
             if self.etag is not None:
                 self.responseHeaders.setRawHeaders(b"ETag", [self.etag])
 
-            if self.cookies:
-                self.responseHeaders.setRawHeaders(b"Set-Cookie", self.cookies)
+            for cookie in self.cookies:
+                # Add to, rather than replace, any Set-Cookie header set
+                # directly on responseHeaders.
+                self.responseHeaders.addRawHeader(b"Set-Cookie", cookie)
 
             self.channel.writeHeaders(version, code, reason, self.responseHeaders)
 
